@@ -1197,7 +1197,12 @@ pub fn analyse(m: &Mig, r: &MigRun) -> Result<Facts, Fail> {
 
     // ---- every path change has a cause; "validated" has a reason
     let valid_before = |a: &SocketAddr, t: u64| validated_at.get(a).is_some_and(|v| *v <= t);
+    // the path the server must fall back to when a validation fails: the most recently validated one
+    let mut last_valid: Option<SocketAddr> = if r.first.validated { Some(r.first.remote) } else { None };
     for c in &r.changes {
+        if c.before.validated {
+            last_valid = Some(c.before.remote);
+        }
         let moved = c.before.remote != c.after.remote;
         let timeout_here = srv_timeouts.contains(&c.t);
         if !migration && moved {
@@ -1209,6 +1214,16 @@ pub fn analyse(m: &Mig, r: &MigRun) -> Result<Facts, Fail> {
             // the server returns to a path it had validated
             let by_packet = !q_here.is_empty();
             let by_timeout = timeout_here && (c.before.prev == Some(c.after.remote) || valid_before(&c.after.remote, c.t));
+            if !by_packet && by_timeout {
+                if let Some(lv) = last_valid {
+                    if lv != c.after.remote {
+                        return Err(fail(
+                            "c15/failed-validation-returned-to-stale-path",
+                            format!("t={}: path validation of {} timed out and the server went to {}, but the path it had validated most recently (the one it left for the failed attempt) is {lv}", c.t, c.before.remote, c.after.remote),
+                        ));
+                    }
+                }
+            }
             if !by_packet && !by_timeout {
                 return Err(fail(
                     "c15/unjustified-path-change",
@@ -1228,6 +1243,9 @@ pub fn analyse(m: &Mig, r: &MigRun) -> Result<Facts, Fail> {
                     ),
                 ));
             }
+        }
+        if c.after.validated {
+            last_valid = Some(c.after.remote);
         }
         if let Some(e) = epochs.iter_mut().find(|e| e.start == c.t && !e.hidden) {
             e.by_timeout = timeout_here && q_here.is_empty();
